@@ -1638,7 +1638,9 @@ class Interp:
                 e = Env(env, env.fn_globals, "comp")
                 self.assign_target(g.target, src.at(i), e)
                 return self.eval(node.elt, e)
-            return SSeq(src.len, get, name=f"map({src.name})")
+            r = SSeq(src.len, get, name=f"map({src.name})")
+            r.mutable = True   # a comprehension builds a fresh list
+            return r
         # evaluated already: stash so the caller does not evaluate twice
         self._pre = src
         out = []
@@ -1730,6 +1732,28 @@ class Interp:
     def store_subscript(self, c, k, v):
         if isinstance(c, (SDict, SMap)):
             return c.setitem(self, k, v)
+        if isinstance(c, SSeq):
+            # xs[i] = v on a symbolic-length list that is known to be unaliased: in place, like CPython
+            if not getattr(c, "mutable", False):
+                raise Undecided("item assignment on a symbolic sequence that is not known to be an unaliased list")
+            if isinstance(k, slice):
+                raise Undecided("slice assignment on a symbolic sequence")
+            kt = term(k)
+            idx = z3.simplify(z3.If(kt < 0, c.len + kt, kt))
+            if not self.ctx.branch(z3.And(idx >= 0, idx < c.len)):
+                raise PyRaise(IndexError("list assignment index out of range"))
+            old_get = c.get
+
+            def get(j, old_get=old_get, idx=idx, v=v):
+                if self.ctx.branch(j == idx):
+                    return v
+                return old_get(j)
+            c.get = get
+            c._cache = {}
+            if not hasattr(c, "stored"):
+                c.stored = []
+            c.stored.append((idx, v))   # ghost log for invariants
+            return None
         if isinstance(c, SObj):
             cls = self.class_of(c)
             raw = _static_getattr(cls, "__setitem__")
